@@ -175,8 +175,11 @@ impl Watcher {
             .authenticate_user(&appointment.to_vec(), &user_signature)
             .map_err(|_| AddAppointmentFailure::AuthenticationFailure)?;
 
-        let (has_subscription_expired, expiry) =
-            self.gatekeeper.has_subscription_expired(user_id).unwrap();
+        // The user may have been deleted right after being authenticated (if the subscription got outdated in the meantime).
+        let (has_subscription_expired, expiry) = self
+            .gatekeeper
+            .has_subscription_expired(user_id)
+            .map_err(|_| AddAppointmentFailure::AuthenticationFailure)?;
 
         if has_subscription_expired {
             return Err(AddAppointmentFailure::SubscriptionExpired(expiry));
@@ -247,7 +250,10 @@ impl Watcher {
             dbm.update_appointment(uuid, appointment).unwrap();
             StoredAppointment::Update
         } else {
-            dbm.store_appointment(uuid, appointment).unwrap();
+            // This can only fail if the user has just been deleted (outdated subscription), so the appointment would be gone too.
+            if let Err(e) = dbm.store_appointment(uuid, appointment) {
+                log::warn!("Appointment {uuid} not stored, its owner is gone (error: {e:?})");
+            }
             StoredAppointment::New
         }
     }
@@ -322,8 +328,10 @@ impl Watcher {
             .authenticate_user(message.as_bytes(), user_signature)
             .map_err(|_| GetAppointmentFailure::AuthenticationFailure)?;
 
-        let (has_subscription_expired, expiry) =
-            self.gatekeeper.has_subscription_expired(user_id).unwrap();
+        let (has_subscription_expired, expiry) = self
+            .gatekeeper
+            .has_subscription_expired(user_id)
+            .map_err(|_| GetAppointmentFailure::AuthenticationFailure)?;
 
         if has_subscription_expired {
             return Err(GetAppointmentFailure::SubscriptionExpired(expiry));
@@ -470,15 +478,18 @@ impl Watcher {
             .authenticate_user(message.as_bytes(), signature)
             .map_err(|_| GetSubscriptionInfoFailure::AuthenticationFailure)?;
 
-        let (has_subscription_expired, expiry) =
-            self.gatekeeper.has_subscription_expired(user_id).unwrap();
+        let (has_subscription_expired, expiry) = self
+            .gatekeeper
+            .has_subscription_expired(user_id)
+            .map_err(|_| GetSubscriptionInfoFailure::AuthenticationFailure)?;
 
         if has_subscription_expired {
             return Err(GetSubscriptionInfoFailure::SubscriptionExpired(expiry));
         }
 
-        let (subscription_info, locators) = self.gatekeeper.get_user_info(user_id).unwrap();
-        Ok((subscription_info, locators))
+        self.gatekeeper
+            .get_user_info(user_id)
+            .ok_or(GetSubscriptionInfoFailure::AuthenticationFailure)
     }
 }
 
